@@ -208,6 +208,25 @@ func (u UnitBytes) MarshalJSON() ([]byte, error) {
 ''', '''	t.enter(node)
 ''', "a vertex can be started twice (TRV-1)"),
  ("C13", "limit-without-coordinator", "K", "graph/traversal.go", '''		eg.SetLimit(t.maxConcurrency + 1)''', '''		eg.SetLimit(t.maxConcurrency)''', "coordinator takes a visitor slot: deadlock at limit 1 (TRV-10)"),
+ ("C01", "unicity-position-off-by-one", "K", "override/uncity.go", """						keys[key] = len(seq) - 1""", """						keys[key] = len(seq)""", "stored position is one past the end: a redefinition indexes out of range (PANIC-IDX position-map idiom)"),
+ ("C01", "unicity-grown-slice-dropped", "K", "override/uncity.go", """						seq = append(seq, entry)
+						keys[key] = len(seq) - 1""", """						keys[key] = len(append(seq, entry)) - 1""", "position recorded but the grown slice is dropped (PANIC-IDX position-map idiom)"),
+ ("C01", "logging-driver-eq", "K", "override/merge.go", """	if !ok1 || !ok2 || reflect.DeepEqual(d, o) {""", """	if !ok1 || !ok2 || d == o {""", "== on two YAML values panics when both are lists (PANIC-CMP)"),
+ ("C01", "extra-hosts-contains", "K", "override/merge.go", """		if !slices.ContainsFunc(right, func(e any) bool { return reflect.DeepEqual(e, v) }) {""", """		if !slices.Contains(right, v) {""", "slices.Contains on []any panics on list elements (PANIC-CMP)"),
+ ("C01", "reset-root-nil", "K", "loader/reset.go", """	if resolved == nil {
+		// the whole document is tagged !reset: nothing to decode
+		return nil
+	}
+""", "", "nil node decoded when the root is tagged !reset (NILRET)"),
+ ("C01", "nameservices-no-kind-check", "K", "loader/loader.go", """	if to.Type() == reflect.TypeOf(types.Services{}) && from.Kind() == reflect.Map {""", """	if to.Type() == reflect.TypeOf(types.Services{}) {""", "MapRange on a non-map services section (PANIC-REFL)"),
+ ("C01", "envfile-skip-duplicates", "K", "types/project.go", """		for _, envFile := range service.EnvFiles {
+			vars, err := loadEnvFile(envFile, resolve)""", """		seen := map[string]bool{}
+		for _, envFile := range service.EnvFiles {
+			if seen[envFile.Path] {
+				continue
+			}
+			seen[envFile.Path] = true
+			vars, err := loadEnvFile(envFile, resolve)""", "a repeated env_file path is skipped whatever its required flag (REFS)"),
  ("C13", "stop-one-early", "K", "graph/traversal.go", """				if expect == 0 {
 					return nil
 				}
